@@ -37,17 +37,24 @@ pub mod vm_alu {
     /// alu_set
     pub fn set(v: u64) -> Out { Out::Ok { v, of: 0, err: 0 } }
 
+    // primitive operations factored out so that a harness can put them under a contract stub (`-Z stubbing`)
+    pub fn prim_mul128(b: u64, c: u64) -> u128 { (b as u128).overflowing_mul(c as u128).0 }
+    pub fn prim_div(b: u64, c: u64) -> u64 { b / c }
+    pub fn prim_rem(b: u64, c: u64) -> u64 { b.wrapping_rem(c) }
+    pub fn prim_pow(b: u64, e: u32) -> (u64, bool) { u64::overflowing_pow(b, e) }
+    pub fn prim_ilog(b: u64, c: u64) -> u64 { b.ilog(c) as u64 }
+
     pub fn add(b: u64, c: u64, flag: u64) -> Out { capture_overflow((b as u128).overflowing_add(c as u128).0, flag) }
     pub fn sub(b: u64, c: u64, flag: u64) -> Out { capture_overflow((b as u128).overflowing_sub(c as u128).0, flag) }
-    pub fn mul(b: u64, c: u64, flag: u64) -> Out { capture_overflow((b as u128).overflowing_mul(c as u128).0, flag) }
-    pub fn div(b: u64, c: u64, flag: u64) -> Out { error(if c == 0 { 0 } else { b / c }, c == 0, flag) }
-    pub fn modulo(b: u64, c: u64, flag: u64) -> Out { error(if c == 0 { 0 } else { b.wrapping_rem(c) }, c == 0, flag) }
+    pub fn mul(b: u64, c: u64, flag: u64) -> Out { capture_overflow(prim_mul128(b, c), flag) }
+    pub fn div(b: u64, c: u64, flag: u64) -> Out { error(if c == 0 { 0 } else { prim_div(b, c) }, c == 0, flag) }
+    pub fn modulo(b: u64, c: u64, flag: u64) -> Out { error(if c == 0 { 0 } else { prim_rem(b, c) }, c == 0, flag) }
     /// alu::exp
     pub fn exp_raw(b: u64, c: u64) -> (u64, bool) {
-        if let Ok(expo) = u32::try_from(c) { u64::overflowing_pow(b, expo) } else if b < 2 { (b, false) } else { (0, true) }
+        if let Ok(expo) = u32::try_from(c) { prim_pow(b, expo) } else if b < 2 { (b, false) } else { (0, true) }
     }
     pub fn exp(b: u64, c: u64, flag: u64) -> Out { let (r, o) = exp_raw(b, c); boolean_overflow(r, o, flag) }
-    pub fn expi(b: u64, imm: u64, flag: u64) -> Out { let (r, o) = u64::overflowing_pow(b, imm as u32); boolean_overflow(r, o, flag) }
+    pub fn expi(b: u64, imm: u64, flag: u64) -> Out { let (r, o) = prim_pow(b, imm as u32); boolean_overflow(r, o, flag) }
     pub fn sll(b: u64, c: u64, _flag: u64) -> Out {
         set(if let Ok(c) = u32::try_from(c) { u64::checked_shl(b, c).unwrap_or_default() } else { 0 })
     }
@@ -65,6 +72,6 @@ pub mod vm_alu {
     /// NOOP: alu_clear (destination untouched; modelled by the caller)
     pub fn mlog(b: u64, c: u64, flag: u64) -> Out {
         let e = b == 0 || c <= 1;
-        error(if e { 0 } else { b.ilog(c) as u64 }, e, flag)
+        error(if e { 0 } else { prim_ilog(b, c) }, e, flag)
     }
 }
